@@ -46,14 +46,14 @@ func (m *manualCtx) expire() {
 // flavours that can be triggered at a chosen instant (used before the call and inside the k-th operation)
 var instantFlavours = []string{
 	"cancel",
-	"cancel-cause-custom",          // WithCancelCause, cause = a custom error
-	"cancel-cause-wraps-canceled",  // cause wraps context.Canceled
-	"cancel-cause-errtimeout",      // cause = commonerrors.ErrTimeout: still a cancellation
-	"cancel-cause-wraps-exceeded",  // cause wraps context.DeadlineExceeded: still a cancellation
-	"cancel-cause-nil",             // WithCancelCause, cancel(nil)
-	"cancel-parent-cause",          // parent cancelled with a cause, child without
-	"deadline-manual",              // harness-controlled deadline context
-	"deadline-child-of-manual",     // stdlib child (WithCancelCause) of an expired parent
+	"cancel-cause-custom",         // WithCancelCause, cause = a custom error
+	"cancel-cause-wraps-canceled", // cause wraps context.Canceled
+	"cancel-cause-errtimeout",     // cause = commonerrors.ErrTimeout: still a cancellation
+	"cancel-cause-wraps-exceeded", // cause wraps context.DeadlineExceeded: still a cancellation
+	"cancel-cause-nil",            // WithCancelCause, cancel(nil)
+	"cancel-parent-cause",         // parent cancelled with a cause, child without
+	"deadline-manual",             // harness-controlled deadline context
+	"deadline-child-of-manual",    // stdlib child (WithCancelCause) of an expired parent
 }
 
 // flavours driven by a real timer: done before the call (deadline in the past) or expiring while the k-th operation waits for it
